@@ -27,7 +27,7 @@ Y_T = {6, 7, 8, 10}                      # templates using the decision rule
 OBJ_DET = [21, 22]
 OBJ_ROB = [23, 24, 25, 26]
 XB = 2
-ACTIONS = ['FlipObj', 'MoveObj', 'SwapDecl', 'SwapStmt', 'Respell', 'Rescale', 'SplitEq', 'ArrLoop',
+ACTIONS = ['FlipObj', 'MoveObj', 'SwapDecl', 'SwapStmt', 'Respell', 'Rescale', 'SplitEq', 'ArrLoop', 'MoveTerms', 'MoveConst',
            'RespellBounds', 'RespellSet', 'SwitchFront']
 ALPHABET = dict(Scales={(1, 1), (2, 1), (1, 2), (3, 1)},
                 SetSpellings={'list', 'args', 'tuple', 'gen', 'mixed', 'nested'},
@@ -157,13 +157,18 @@ def families(tier, rng):
     two = dict(SetIds=set(rng.sample(SETS, 3)), RowTemplates=set(rt), ObjTemplates={rng.choice(OBJ_DET)} | set(rng.sample(OBJ_ROB, 2)),
                MaxRows=2, Masks={'none', rng.choice(['m1', 'm2', 'm12'])}, IntChoices={True, False},
                Senses={'le', 'ge', 'eq'}, OSenses={'min', 'minmax', 'maxmin'}, ArrTemplates=arr_pairs(rt, 2))
-    walks = {'quick': (520, 260, 40), 'thorough': (5200, 2600, 300)}[tier]
+    walks = {'quick': (520, 260, 40, 60), 'thorough': (8000, 4000, 400, 800)}[tier]
     # focused walks: the front end and the set spelling only (nested lists exist in the dro front ends only,
     # two specific steps away from the base presentation)
     focus = dict(acts=['SwitchFront', 'RespellSet'], alphabet=dict(SetSpellings={'list', 'nested', 'mixed'}))
     small = dict(one, RowTemplates=set(sorted(one['RowTemplates'])[:3]), ArrTemplates=set(sorted(one['ArrTemplates'])[:2]),
                  Masks={'none', 'm1'}, SetIds=set(rng.sample(SETS, 3)))
-    return [('1row', one, walks[0], 2, {}), ('2row', two, walks[1], 1, {}), ('1row-front+set', small, walks[2], 1, focus)]
+    # focused family: equalities on decision-rule rows (the rule-only template 6 gives a constraint that is robust
+    # only through the adaptation: DecLinConstr in the dro front end), rare in the uniform walks
+    eqy = dict(one, RowTemplates={6, 10, rng.choice([7, 8])}, ArrTemplates={(6, 10), (10, 6)}, Senses={'eq'},
+               Masks={'m1', 'm2', 'm12'}, IntChoices={False})
+    return [('1row', one, walks[0], 2, {}), ('2row', two, walks[1], 1, {}), ('1row-front+set', small, walks[2], 1, focus),
+            ('1row-eq+rule', eqy, walks[3], 1, dict(acts=['SwitchFront', 'SplitEq', 'Respell', 'ArrLoop', 'MoveTerms', 'Rescale']))]
 
 
 def simulate(rep, tier, sc, maxword):
@@ -171,8 +176,19 @@ def simulate(rep, tier, sc, maxword):
     fams = families(tier, rng)
     out = [None] * len(fams)
 
+    sem = threading.BoundedSemaphore(4)          # at most 4 TLC workers in total
+
     def one(k):
         name, fam, walks, workers, kw = fams[k]
+        for _ in range(workers):
+            sem.acquire()
+        try:
+            _one(k, name, fam, walks, workers, kw)
+        finally:
+            for _ in range(workers):
+                sem.release()
+
+    def _one(k, name, fam, walks, workers, kw):
         model = tlc.make_model('Rewrite', sc, constants=constants(fam, maxword, **kw), spec='RwSpec',
                                invariants=['DenotInvariant', 'Supported', 'NestedRoIllFormed', 'RwExport'])
         out[k] = tlc.run_tlc(model, sc, workers=workers, coverage=False, simulate='num=%d' % (walks // workers),
@@ -181,8 +197,11 @@ def simulate(rep, tier, sc, maxword):
     th = [threading.Thread(target=one, args=(k,)) for k in range(len(fams))]
     for t in th:
         t.start()
+        time.sleep(0.05)                         # families acquire their workers in list order
     for t in th:
         t.join()
+    if any(o is None for o in out):
+        raise tlc.MachineryError('Rewrite simulation: a TLC run did not return')
     recs = {}
     for (name, fam, walks, workers, kw), res in zip(fams, out):
         tlc.require_ok(res, 'Rewrite simulation ' + name, allow_violation=True)
@@ -223,7 +242,7 @@ def bfs_cost(rec):
 
 def pick_bfs_programs(roots, tier, rng):
     """Feature-covering sample of programs for the exhaustive run, within a cost budget."""
-    budget = {'quick': 20, 'thorough': 60}[tier]
+    budget = {'quick': 18, 'thorough': 80}[tier]
     roots = sorted(roots, key=lambda r: pkey(r['prog']))
     rng.shuffle(roots)
     roots.sort(key=bfs_cost)
@@ -290,7 +309,7 @@ def build_orbits(recs, tier, rng):
     rng.shuffle(orbits)
     feas = [o for o in orbits if o['members'][()]['gridFeasible']]
     infe = [o for o in orbits if not o['members'][()]['gridFeasible']]
-    cap = {'quick': 330, 'thorough': 3600}[tier]
+    cap = {'quick': 330, 'thorough': 6000}[tier]
     return feas[:cap] + infe[:max(20, cap // 6)]
 
 
@@ -316,7 +335,7 @@ def edge_detail(rec, a):
     p = rec['prog']
     front = rec['pres']['front']
     kind = 'ldr' if p['mask'] != 'none' else ('int' if p['xint'] else 'cont')
-    if a['act'] in ('Respell', 'Rescale', 'SplitEq', 'ArrLoop'):
+    if a['act'] in ('Respell', 'Rescale', 'SplitEq', 'ArrLoop', 'MoveTerms', 'MoveConst'):
         r = p['rows'][a['i'] - 1]
         ctx = '%s-%s' % (r['sense'], 'arr' if len(r['ts']) == 2 else 'row')
     elif a['act'] in ('FlipObj', 'MoveObj'):
@@ -512,8 +531,11 @@ def run(rep, tier, props):
             name = rewrite_name(f['act'])
             det = edge_detail(rec, f['act'])
             if f['kind'] == 'member-raises':
+                # named by the rewrite that separates the raising member from its neighbour and by the
+                # presentation class of the member that RAISES
                 who = f['child'] if f['raised'] == 'child' else f['par']
                 r = per_orbit[oi][who]
+                det = edge_detail(o['members'][who], f['act'])
                 sig = 'C15:member-raises:%s:%s:%s' % (name if f['raised'] == 'child' else name + '(undone)', det, r['exc'].split(':')[0])
                 _emit(rep, dict(sig=sig, prop='C15', what='a member of the orbit raises (%s at %s, phase %s) where the neighbouring presentation does not'
                                 % (r['exc'], r.get('where'), r.get('phase')), **detail(oi, f['child'], f['par'])), props)
@@ -541,6 +563,13 @@ def run(rep, tier, props):
                 what = ('two presentations differing in ONE rewrite (%s): one is solved, the other reported without solution (both solvers agree)' % name)
             _emit(rep, dict(sig='C15:%s:%s:%s' % (f['kind'], name, det), prop='C15', what=what,
                             second_solver=dict(parent=rp, child=rc), **detail(oi, f['child'], f['par'])), props)
+
+    # ---- an orbit whose base presentation raises (and nobody disagrees) is not a rewrite matter
+    for oi, o in enumerate(orbits):
+        r0 = per_orbit[oi][()]
+        if r0['status'] == 'exception' and oi not in suspects:
+            _emit(rep, dict(sig='C01:unexpected-exception:%s:%s' % (r0['phase'], r0['exc'].split(':')[0]), prop='C01',
+                            what='every presentation of the program raises: ' + r0['exc'], **detail(oi, ())), props)
 
     # ---- relation with the grid optimum (as C02): attributed to the rewrite at which it starts to fail
     for oi, o in enumerate(orbits):
